@@ -160,8 +160,11 @@ class PipeW(OpenFile):
 
 
 class Pty(object):
-    def __init__(self, kernel, out_cap=65536, in_cap=4096, eof_flavour='eio'):
+    def __init__(self, kernel, out_cap=65536, in_cap=4096, eof_flavour='eio', hup_write=None):
         self.k = kernel
+        # write to the master once the slave side is gone: accepted and discarded on current Linux
+        # (calibrated), EIO on older kernels and BSDs ('eio' flavour, chosen per scenario)
+        self.hup_write = hup_write or kernel.w.scn.get('hup_write', 'ok')
         self.attr = default_termios()
         self.winsize = (24, 80)
         self.out = bytearray()       # slave -> master, after output processing
@@ -180,6 +183,7 @@ class Pty(object):
         self.session = None
         self.out_log = bytearray() if kernel.keep_logs else None
         self.in_log = bytearray() if kernel.keep_logs else None
+        self.discard_log = bytearray() if kernel.keep_logs else None   # written after the slave side was gone
 
     # flags
     def lflag(self, bit):
@@ -301,7 +305,11 @@ class PtyMaster(OpenFile):
     def write_now(self, data):
         pty = self.pty
         if pty.hung_up():
-            raise oserr(errno.EIO)
+            if pty.hup_write == 'eio':
+                raise oserr(errno.EIO)
+            if pty.discard_log is not None:
+                pty.discard_log += data
+            return len(data)          # nobody will ever read it
         room = max(0, pty.in_cap - len(pty.inq) - len(pty.line))
         data = data[:room]
         pty.master_write(data)
